@@ -10,73 +10,135 @@
 (*   "fixed"   xnp.randn is called without a key (falls back to a fixed    *)
 (*             built-in key): deterministic, but the key is not honoured   *)
 (*   "global"  numbers are taken directly from numpy's global generator    *)
-(* and whether np_fns.randn saves and restores the global state.           *)
+(* whether np_fns.randn saves and restores the global state                *)
+(* (RM_RandnRestores) and whether it is free of module-level mutable state *)
+(* (RM_RandnStateless; a memo / cache / counter that survives the call).   *)
 (*                                                                         *)
-(* Every behaviour of length <= RM_MaxLen is explored; each step of a call *)
-(* is judged against the specification of module Rng (g unchanged, output  *)
-(* equal to the first one observed for the same routine and key).  The     *)
-(* judged behaviours are printed for replay against the real library.      *)
-(* DisciplineSound is the design-level theorem: the keyed / fixed          *)
-(* save-and-restore disciplines implement the specification in every       *)
-(* interleaving.  Routines of discipline "global" are the model's          *)
+(* Actions (RM_Acts): [t |-> "draw"], [t |-> "seed", s], and               *)
+(*   [t |-> "call", r, op, k]   routine r on operator op with key k.       *)
+(* The alphabet is split into MODES (RM_Modes), each a set of actions with *)
+(* its own length bound, because the full product is too large:            *)
+(*   base       every routine x every key on ONE operator ("base"; the     *)
+(*              harness replays it on several), with user draws / seeds;   *)
+(*   variant:r  ONE routine on the operator variants float32 / float64 /   *)
+(*              complex64 / complex128 of one matrix (equal shapes, so     *)
+(*              that only the dtype tells their draws apart) x every key,  *)
+(*              interleaved with UNRELATED keyed draws (routine            *)
+(*              "raw_randn": same key with another shape and dtype, other  *)
+(*              key with the same shape) and user draws.                   *)
+(* Every behaviour of a mode of length <= its bound is explored; each step *)
+(* of a call is judged against the specification of module Rng (g          *)
+(* unchanged, output equal to the first one observed for the same routine, *)
+(* operator and key).  The judged behaviours are printed for replay        *)
+(* against the real library.                                               *)
+(*                                                                         *)
+(* KeyedOutputsAreAFunction is the property as an ACTION property over the *)
+(* explicit history `evs` (Rng!ExtendsFunction): the output of the call    *)
+(* just made equals the output of every earlier call of the same (routine, *)
+(* operator, key), whatever calls of other dtypes / shapes / keys came in  *)
+(* between.  It is the design-level theorem for the disciplined routines:  *)
+(* keyed / fixed draws through a randn that restores the global state and  *)
+(* keeps no state of its own implement the specification in every          *)
+(* interleaving.  Routines of discipline "global", and every routine if    *)
+(* randn keeps state (the model then lets a draw depend, in the worst      *)
+(* case, on the keyed draw made before it: variable memo), are the model's *)
 (* predicted violations (reported by the harness once confirmed on code).  *)
 (***************************************************************************)
 EXTENDS Integers, Sequences, FiniteSets, Json, TLC, RngModel
 
-VARIABLES g, out, hist, verd
+VARIABLES g, out, hist, verd, mode, memo, evs
 
 SeqToSet(s) == {s[i]: i \in DOMAIN s}
 RoutineSet == SeqToSet(RM_Routines)
+OperatorSet == SeqToSet(RM_Ops)
 KeySet == SeqToSet(RM_Keys)
 SeedSet == SeqToSet(RM_Seeds)
 AllDigests == {"unused"}
 
-R == INSTANCE Rng WITH Routines <- RoutineSet, Keys <- KeySet, Seeds <- SeedSet, Digests <- AllDigests
+R == INSTANCE Rng WITH Routines <- RoutineSet, Operators <- OperatorSet, Keys <- KeySet, Seeds <- SeedSet,
+                       Digests <- AllDigests
 
 NActs == Len(RM_Acts)
+NModes == Len(RM_Modes)
+ModeActs(m) == SeqToSet(RM_Modes[m].acts)
+(* the slots a mode can touch: `out` is the restriction of Rng!out to them (all others stay "none") *)
+ModeSlots(m) == {<<RM_Acts[i].r, RM_Acts[i].op, RM_Acts[i].k>>: i \in {j \in ModeActs(m): RM_Acts[j].t = "call"}}
 
 (* modelled mechanism of one call: <<new global state, output value>> *)
 Advance(x) == <<x[1], x[2] + 1>>
-Mech(r, k) ==
+Leftover == IF RM_RandnStateless THEN "" ELSE ToString(memo)
+Mech(r, op, k) ==
     LET d == RM_Disc[r] IN
-    CASE d = "keyed"  -> <<IF RM_RandnRestores THEN g ELSE <<"reseeded-by-key", k>>, ToString(<<r, "key", k>>)>>
-      [] d = "fixed"  -> <<IF RM_RandnRestores THEN g ELSE <<"reseeded-by-key", 0>>, ToString(<<r, "fixed">>)>>
-      [] d = "global" -> <<Advance(g), ToString(<<r, "global", g>>)>>
+    CASE d = "keyed"  -> <<IF RM_RandnRestores THEN g ELSE <<"reseeded-by-key", k>>, ToString(<<r, op, "key", k, Leftover>>)>>
+      [] d = "fixed"  -> <<IF RM_RandnRestores THEN g ELSE <<"reseeded-by-key", 0>>, ToString(<<r, op, "fixed", Leftover>>)>>
+      [] d = "global" -> <<Advance(g), ToString(<<r, op, "global", g>>)>>
 
-Init == /\ R!Init
+Init == /\ mode \in 1..NModes
+        /\ g = R!GBoot
+        /\ out = [s \in ModeSlots(mode) |-> "none"]
         /\ hist = <<>>
         /\ verd = <<>>
+        /\ memo = "none"
+        /\ evs = <<>>
 
-(* All behaviours are explored; of the longest ones every RM_SampleMod-th is printed for replay (1 = all).  The *)
-(* selection depends on the last action through 13 * i, so for RM_SampleMod coprime to 13 every behaviour of   *)
-(* length RM_MaxLen - 1 keeps at least NActs \div RM_SampleMod printed extensions.                              *)
+(* All behaviours are explored; of the longest ones every mod-th is printed for replay (1 = all).  The          *)
+(* selection depends on the last action through 13 * i, so for mod coprime to 13 every behaviour one shorter    *)
+(* than the bound keeps a printed extension whenever the mode owns mod consecutive action indices.              *)
 RECURSIVE WSum(_, _)
 WSum(h, j) == IF j >= Len(h) THEN 0 ELSE (h[j] * (7 * j + 3)) + WSum(h, j + 1)
 SelectedLeaf ==
-    \/ RM_SampleMod = 1
-    \/ (WSum(hist, 1) + 13 * hist[Len(hist)] + RM_SampleRes) % RM_SampleMod = 0
+    LET md == RM_Modes[mode] IN
+    \/ md.mod = 1
+    \/ (WSum(hist, 1) + 13 * hist[Len(hist)] + md.res) % md.mod = 0
+
+NoEvent == [call |-> FALSE, r |-> "", op |-> "", k |-> 0, o |-> ""]
 
 Step(i) ==
     LET a == RM_Acts[i] IN
-    /\ Len(hist) < RM_MaxLen
+    /\ i \in ModeActs(mode)
+    /\ Len(hist) < RM_Modes[mode].maxlen
     /\ hist' = Append(hist, i)
-    /\ CASE a.t = "draw" -> R!UserDraw /\ verd' = Append(verd, <<TRUE, TRUE>>)
-         [] a.t = "seed" -> R!UserSeed(a.s) /\ verd' = Append(verd, <<TRUE, TRUE>>)
+    /\ UNCHANGED mode
+    /\ CASE a.t = "draw" -> /\ R!UserDraw /\ verd' = Append(verd, <<TRUE, TRUE>>)
+                            /\ UNCHANGED memo /\ evs' = Append(evs, NoEvent)
+         [] a.t = "seed" -> /\ R!UserSeed(a.s) /\ verd' = Append(verd, <<TRUE, TRUE>>)
+                            /\ UNCHANGED memo /\ evs' = Append(evs, NoEvent)
          [] a.t = "call" ->
-              LET m == Mech(a.r, a.k) IN
+              LET m == Mech(a.r, a.op, a.k) IN
               /\ g' = m[1]
-              /\ out' = R!Remember(out, a.r, a.k, m[2])
-              /\ verd' = Append(verd, <<R!CallOkGlobal(g, m[1]), R!CallOkDeterministic(out, a.r, a.k, m[2])>>)
+              /\ out' = R!Remember(out, a.r, a.op, a.k, m[2])
+              /\ verd' = Append(verd, <<R!CallOkGlobal(g, m[1]), R!CallOkDeterministic(out, a.r, a.op, a.k, m[2])>>)
+              /\ memo' = IF RM_RandnStateless \/ RM_Disc[a.r] = "global" THEN memo ELSE <<a.op, a.k>>
+              /\ evs' = Append(evs, [call |-> TRUE, r |-> a.r, op |-> a.op, k |-> a.k, o |-> m[2]])
 
 Next == \E i \in 1..NActs: Step(i)
-vars == <<g, out, hist, verd>>
+vars == <<g, out, hist, verd, mode, memo, evs>>
 Spec == Init /\ [][Next]_vars
 
-(* design-level result *)
+Disciplined(r) == RM_RandnRestores /\ RM_RandnStateless /\ RM_Disc[r] \in {"keyed", "fixed"}
+
+(* THE PROPERTY as an action property over histories that interleave calls on different operators (dtypes),    *)
+(* probe shapes and keys: the call just appended returns what every earlier call of the same (routine,         *)
+(* operator, key) returned, and leaves g alone - for every disciplined routine (design-level theorem).         *)
+KeyedOutputsAreAFunction ==
+    [][LET e == evs'[Len(evs')] IN
+       (e.call /\ Disciplined(e.r)) => (R!ExtendsFunction(evs, e) /\ g' = g)]_vars
+
+(* ... and as a state predicate over the whole history, when every routine that was called is disciplined *)
+HistoryIsAFunction ==
+    (\A j \in 1..Len(evs): evs[j].call => Disciplined(evs[j].r)) => R!FunctionOfRoutineOperatorKey(evs)
+
+(* distinct keys / operators are NOT forced equal: the mechanism model keeps them apart (sensitivity of the model) *)
+ModelSeparatesSlots ==
+    \A i, j \in 1..Len(evs):
+        (evs[i].call /\ evs[j].call /\ evs[i].r = evs[j].r /\ RM_Disc[evs[i].r] = "keyed" /\ ~R!SameSlot(evs[i], evs[j]))
+            => evs[i].o # evs[j].o
+
+(* design-level result, verdict form (the verdicts are what the harness compares with the code) *)
 DisciplineSound ==
     \A j \in 1..Len(hist):
         LET a == RM_Acts[hist[j]] IN
-        (a.t = "call" /\ RM_RandnRestores /\ RM_Disc[a.r] \in {"keyed", "fixed"}) => verd[j] = <<TRUE, TRUE>>
+        (a.t = "call" /\ Disciplined(a.r)) => verd[j] = <<TRUE, TRUE>>
 
 (* user actions are the only ones allowed to move g: every other move is flagged *)
 FlagsComplete ==
@@ -85,8 +147,8 @@ FlagsComplete ==
         (a.t = "call" /\ RM_Disc[a.r] = "global") => verd[j][1] = FALSE
 
 Bit(b) == IF b THEN 1 ELSE 0
-Emit == (Len(hist) = RM_MaxLen /\ SelectedLeaf) =>
-            PrintT(ToJson([h |-> hist,
+Emit == (Len(hist) = RM_Modes[mode].maxlen /\ SelectedLeaf) =>
+            PrintT(ToJson([m |-> mode, h |-> hist,
                            vg |-> [j \in 1..Len(verd) |-> Bit(verd[j][1])],
                            vd |-> [j \in 1..Len(verd) |-> Bit(verd[j][2])]]))
 =============================================================================
